@@ -220,6 +220,9 @@ def rules(ctx):
     # band test on the mean acceptance, never by positions (same rule as C19.R3, decided on the same code)
     from .c19 import r3_std
     r3_std(ctx, rid="C07.R8", title="each individual's proposal scale adapts to its own acceptance history (mask = elementwise band test; no positional index)")
+    # the layout of one individual's event data (number of event types) never depends on what the rest of the cohort contains (same rule as C14.R6)
+    from .c14 import r6_configured_event_count
+    r6_configured_event_count(ctx, rid="C07.R9")
     ctx.trust("joblib.Parallel preserves the order of its generator and runs each call on the arguments given")
     ctx.assume("population tensors broadcast along trailing axes (never aligned with the individual axis by coincidence)")
 
